@@ -354,10 +354,19 @@ def nontrivial(case, out):
     return len(case["prog"]) >= 1 and len(set(case.get("sched") or [])) >= 2
 
 
+def futures_out_of_order(case):
+    """do the workers complete the futures in another order than the messages carry them (some worker list not
+    ascending, or several workers racing)?"""
+    ws = [w for w in case["workers"] if w]
+    return any(list(w) != sorted(w) for w in ws) or len(ws) > 1
+
+
 def branch(case, out):
     items = case["prog"]
     num = "explicit" if any("@" in t for t in items) else "auto"
-    pay = "fut" if any("f" in t for t in items) else "plain"
+    pay = "plain"
+    if any("f" in t for t in items):
+        pay = "fut-ooo" if futures_out_of_order(case) else "fut"
     end = out.split(" end=")[1].split(" ")[0] if " end=" in out else "?"
     return f"{'lazy' if case['lazy'] else 'eager'}/{num}/{pay}/{classify(case)}/{end}"
 
@@ -460,6 +469,10 @@ def small_configs(quick):
     out.append((mk_case(None, 1, "1", prog(2)), b_small))
     out.append((mk_case(1, 0, "1", ["f0:10", "p20"], [[0]]), b_small))
     out.append((mk_case(1, 1, "1", ["f0:10"], [[0]]), b_small))
+    # futures completed out of order by concurrent workers: results must still come out in message order
+    out.append((mk_case(2, 0, "1", ["f0:10", "f1:20"], [[1, 0]]), b_small))
+    out.append((mk_case(2, 0, "1", ["f0:10", "f1:20"], [[1], [0]]), 1 if quick else 2))
+    out.append((mk_case(2, 1, "1", ["f0:10", "p20", "f1:30"], [[1], [0]]), 1 if quick else 2))
     out.append((mk_case(1, 0, "1", prog(2), kills="u"), b_small))
     out.append((mk_case(1, 1, "10", prog(1), kills="d"), 1 if quick else 2))
     out.append((mk_case(1, 0, "1", ["p10", "x"]), b_small))
